@@ -1,6 +1,6 @@
 From Coq Require Import List Arith Lia Bool.
 Import ListNotations.
-From SV Require Import c15.Conc c15.Model_C15 c15.Proofs_C15 c15.Proofs_C15_Excl c15.Proofs_C15_Spawn c15.Properties_C15.
+From SV Require Import c15.Conc c15.Model_C15 c15.Proofs_C15 c15.Proofs_C15_Excl c15.Proofs_C15_Spawn c15.Proofs_C15_Visible c15.Proofs_C15_Visible2 c15.Properties_C15.
 
 Check (C15_single_stopper : forall progs sched s1 s2 x1 x2,
   let w := run cfg_fixed sched (init progs) in
@@ -68,6 +68,27 @@ Check (eq_refl : cfg_pre_spawn_fix = {| keep_guard := true; jit_box_safepoint :=
 Check (eq_refl : live = fun x => negb (is_done (pc x)) && negb (is_notstarted (pc x))).
 Check (eq_refl : in_exit_window = fun x => is_exit_checked (pc x) && paused x).
 Check (eq_refl : exit_window = fun w => existsb in_exit_window (ths w)).
+Check (C15_table_generations : forall progs sched,
+  let w := run cfg_fixed sched (init progs) in
+  (forall h s k, pc (th w h) = Stw s -> upd_pos s = Some k -> vis_at w h k) /\
+  ((forall h s, pc (th w h) = Stw s -> upd_pos s = None) ->
+   forall t, live (th w t) = true -> seen (th w t) = env_gen w)).
+Check (C15_global_visible : forall progs sched t,
+  exit_window_free cfg_fixed sched (init progs) = true ->
+  let w := run cfg_fixed sched (init progs) in
+  pc (th w t) = Exec -> seen (th w t) = env_gen w).
+Check (C15_global_visible_nonvacuous :
+  exit_window_free cfg_fixed vis_sched (init wf_progs) = true /\
+  (let w := run cfg_fixed vis_sched (init wf_progs) in
+   pc (th w 1) = Exec /\ env_gen w = 1 /\ seen (th w 1) = 1 /\ seen (th w 0) = 1)).
+Check (eq_refl : upd_pos = fun s => match s with
+  | SWaitLock p => if p =? 2 then Some 0 else None
+  | SWait p k | SAccess p k => if p =? 2 then Some k else None
+  | _ => None end).
+Check (eq_refl : vis_at = fun w h k =>
+  is_update (head (th w h)) = true /\ S (seen (th w h)) = env_gen w /\
+  forall t, t <> h -> live (th w t) = true ->
+            (t < k -> seen (th w t) = env_gen w) /\ (k <= t -> S (seen (th w t)) = env_gen w)).
 Print Assumptions C15_single_stopper.
 Print Assumptions C15_flags_cleared.
 Print Assumptions C15_parked_released.
@@ -82,3 +103,6 @@ Print Assumptions C15_no_unregistered_runner_during_section.
 Print Assumptions C15_mutual_exclusion_outside_exit_window.
 Print Assumptions C15_all_stopped_outside_exit_window.
 Print Assumptions C15_exit_window_free_nonvacuous.
+Print Assumptions C15_table_generations.
+Print Assumptions C15_global_visible.
+Print Assumptions C15_global_visible_nonvacuous.
